@@ -15,6 +15,8 @@ import time
 from pathlib import Path
 
 ROOT = Path(__file__).resolve().parent.parent
+# scratch runs (seed screening against a worktree put first on PYTHONPATH) write their evidence and replays elsewhere
+OUT = Path(os.environ["VF_OUT"]) if os.environ.get("VF_OUT") else ROOT
 PY = sys.executable
 NPROC = int(os.environ.get("VF_JOBS", "0") or 0) or (os.cpu_count() or 4)
 
@@ -75,8 +77,8 @@ def _merge_twins(rs: list) -> dict:
 
 
 def _write_replay(prop: str, obname: str, mod: str, args: dict, message: str, detail: dict) -> Path:
-    d = ROOT / "replays"
-    d.mkdir(exist_ok=True)
+    d = OUT / "replays"
+    d.mkdir(parents=True, exist_ok=True)
     path = d / f"{obname.replace('.', '_')}.json"
     path.write_text(
         json.dumps(
@@ -313,8 +315,8 @@ def main(argv: list[str]) -> int:
         "wall_s": round(wall, 1),
         "violations": len(violations),
     }
-    (ROOT / "evidence").mkdir(exist_ok=True)
-    (ROOT / "evidence" / f"{prop}.json").write_text(json.dumps(ev, indent=1, default=repr))
+    (OUT / "evidence").mkdir(parents=True, exist_ok=True)
+    (OUT / "evidence" / f"{prop}.json").write_text(json.dumps(ev, indent=1, default=repr))
 
     for r in ob_reports:
         print(
